@@ -114,6 +114,32 @@ func main() {
 				w.PrintPaths(fn)
 			}
 		}
+	case "fieldstores":
+		w := mustLoad(repo)
+		typs := map[string]bool{}
+		for _, t := range args[1:] {
+			typs[t] = true
+		}
+		var fns []*ssa.Function
+		for _, f := range w.Fns {
+			if !core.IsTestSupport(f) {
+				fns = append(fns, f)
+			}
+		}
+		for _, in := range w.StructFieldStores(fns, typs) {
+			fmt.Printf("%s  %s\n    %s\n", core.FnName(in.Parent()), w.InstrPos(in), w.RenderInstr(in))
+		}
+	case "writers":
+		w := mustLoad(repo)
+		ws := w.ReceiverWriters(args[1:]...)
+		var names []string
+		for f, why := range ws {
+			names = append(names, core.FnName(f)+"   <- "+why)
+		}
+		sort.Strings(names)
+		for _, n := range names {
+			fmt.Println(n)
+		}
 	case "sites":
 		if len(args) < 2 {
 			usage()
